@@ -426,6 +426,11 @@ class Result:
                                  'impl': c.impl[:300]})
         return outs
 
+    def open_violations(self):
+        """violations that no listed finding explains"""
+        sigs = {(k['property'], k['signature']) for k in load_known().get('findings', [])}
+        return [v for v in self.violations if (self.prop, v['signature']) not in sigs]
+
     def violation(self, what, replay_obj, signature, found_input=True):
         self.violations.append({'what': what, 'replay': replay_obj, 'signature': signature,
                                 'found_input': found_input})
